@@ -84,6 +84,10 @@ type DFA struct {
 	// These slots represent capture positions at the match (END positions)
 	matchSlots []uint32
 
+	// matchAtEnd[sid] is true if match state sid was reached through an
+	// end-of-text assertion: it only matches at the end of the input
+	matchAtEnd []bool
+
 	// Minimum match state ID for fast match detection
 	// States with ID >= minMatchID are match states
 	minMatchID StateID
@@ -99,6 +103,10 @@ type Cache struct {
 	// slots stores capture group positions: [start0, end0, start1, end1, ...]
 	// Group 0 is the entire match, groups 1+ are explicit captures
 	slots []int
+
+	// work holds the slots of the thread being followed; slots receives a
+	// copy whenever that thread passes through a match state
+	work []int
 }
 
 // NewCache creates a new cache for the given number of capture groups.
@@ -106,6 +114,7 @@ type Cache struct {
 func NewCache(numCaptures int) *Cache {
 	return &Cache{
 		slots: make([]int, numCaptures*2),
+		work:  make([]int, numCaptures*2),
 	}
 }
 
@@ -133,7 +142,12 @@ func (d *DFA) NumCaptures() int {
 func (d *DFA) IsMatch(input []byte) bool {
 	state := d.startState
 
-	for _, b := range input {
+	for pos, b := range input {
+		// Check for match (early termination)
+		if d.matchesAt(state, pos, len(input)) {
+			return true
+		}
+
 		class := d.classes.Get(b)
 		trans := d.getTransition(state, class)
 
@@ -142,15 +156,19 @@ func (d *DFA) IsMatch(input []byte) bool {
 		}
 
 		state = trans.NextState()
-
-		// Check for match (early termination)
-		if d.isMatchState(state) {
-			return true
-		}
 	}
 
 	// Check final state
 	return d.isMatchState(state)
+}
+
+// matchesAt reports whether state is a match state whose end-of-text
+// condition (if any) holds at pos.
+func (d *DFA) matchesAt(state StateID, pos, end int) bool {
+	if !d.isMatchState(state) {
+		return false
+	}
+	return pos == end || int(state) >= len(d.matchAtEnd) || !d.matchAtEnd[state]
 }
 
 // getTransition retrieves the transition for the given state and byte class.
